@@ -8,6 +8,10 @@ and the number of bytes that got through before an error cannot be predicted) an
 * `e2e_prefix`            what a reader got is a prefix of what the peer wrote; EOF only after all of it
 * `e2e_complete`          writer closed + nobody reports an error  ⇒ the reader has every byte
 * `e2e_datagram_once`     datagrams delivered at most once and unmodified
+                          (round 5: including the `b=` bulk scenarios — every stream kind, both directions, more bytes than
+                          the stream-level windows of plain / Chrome / Firefox clients, readers that start late)
+* `e2e_no_crash`          no panic / fatal error escapes from the endpoints (the scenarios run in a worker process; a dead worker
+                          is the observation `crash=<panic>@<function>`)
 * `e2e_transfer_completes` no path outage (every schedule here: ≤ 4 faults, delays ≤ 3 s < idle timeout) ⇒ the dial
                           succeeds and every stream is transferred completely within the deadline
 * `e2e_connection_survives` (round 4, `y=` scenarios: idle timeout T, silence q after an ACK-only tail, then a write
@@ -68,12 +72,24 @@ def step (_ : Unit) (op impl : String) : Unit × StepOut := Id.run do
   let w := words op
   let mut tags : List String := []
   let mut fails : List (String × String × String) := []
+  -- a panic / fatal error that escaped from the code under test ended the worker process (round 5)
+  if w.head? == some "run" && impl.startsWith "crash=" then
+    -- (regression: corpus/C01/e2estream/initial-coalesced-overflow.ops — a spec-driven client that coalesced a packet
+    -- behind a zero-padded Initial sliced past the packet buffer in encryptPacket; fixed in /repo 9faccbf)
+    return ((), { model := impl, tags := ["crash"],
+                  fails := [("e2e_no_crash", "-", s!"the process running the endpoints died: {impl}")] })
   if w.head? != some "run" || impl == "bad-op" || impl.startsWith "setup-error" then
     return ((), { model := impl, tags := ["bad"], fails := if impl.startsWith "setup-error" then [("e2e_setup", "-", impl)] else [] })
   let cl := (field op "cl=").getD "?"
   let v := (field op "v=").getD "?"
   let sc := ((field op "sc=").getD "0,0,0,0").splitOn ","
-  let nc := natOf (sc.getD 0 "0"); let ns := natOf (sc.getD 1 "0")
+  -- bulk scenarios (round 5, `b=<kinds>,<KiB>,<lagMs>`): one stream per selected kind, both directions of a bidirectional one
+  let bv := ((field op "b=").getD "").splitOn ","
+  let hasB := bv.length == 3
+  let bKinds := natOf (bv.getD 0 "0"); let bKiB := natOf (bv.getD 1 "0"); let bLag := natOf (bv.getD 2 "0")
+  let bit (k : Nat) : Nat := if bKinds / k % 2 == 1 then 1 else 0
+  let nc := if hasB then bit 1 + bit 2 + bit 4 else natOf (sc.getD 0 "0")
+  let ns := if hasB then bit 1 + bit 2 + bit 8 else natOf (sc.getD 1 "0")
   let faults := match field op "faults=" with
     | some "-" => []
     | some f => f.splitOn ","
@@ -86,6 +102,21 @@ def step (_ : Unit) (op impl : String) : Unit × StepOut := Id.run do
     if natOf bd > 0 then tags := tags ++ ["style:blackout"]
     if natOf dgi > 0 then tags := tags ++ ["style:dgram-interleaved"]
   | _ => pure ()
+  if hasB then
+    tags := tags ++ ["style:bulk", s!"bulk:{cl}:lag{if bLag == 0 then "0" else if bLag < 500 then "<500" else ">=500"}",
+      if bKiB > 12288 then "bulk:>12MiB" else if bKiB > 6144 then "bulk:>6MiB" else if bKiB > 1024 then "bulk:>1MiB" else "bulk:small"]
+      ++ (if bit 1 == 1 then [s!"bulk:{cl}:client-bidi"] else []) ++ (if bit 2 == 1 then [s!"bulk:{cl}:server-bidi"] else [])
+      ++ (if bit 4 == 1 then [s!"bulk:{cl}:client-uni"] else []) ++ (if bit 8 == 1 then [s!"bulk:{cl}:server-uni"] else [])
+  -- handshake variants (round 5, `h=`): the same monitors judge the transfers; `zr=` only feeds the coverage tags
+  match field op "h=" with
+  | some h =>
+    tags := tags ++ [match h with
+      | "1" => "handshake:retry" | "2" => "handshake:hello-retry-request" | "3" => "handshake:0rtt" | "4" => "handshake:0rtt-server-lowered-limits"
+      | "5" => "handshake:0rtt+retry" | _ => "handshake:0rtt+hello-retry-request"]
+    match ((field impl "zr=").getD "").splitOn "," with
+    | [u, rj] => tags := tags ++ [if rj == "1" then "0rtt:rejected-redone" else if u == "1" then "0rtt:used" else "0rtt:not-attempted"]
+    | _ => pure ()
+  | none => pure ()
   for f in faults do
     match f.splitOn ":" with
     | [d, i, k, a] =>
@@ -120,7 +151,9 @@ def step (_ : Unit) (op impl : String) : Unit × StepOut := Id.run do
   let t := natOf ((field impl "t=").getD "0")
   -- known finding C01-uquic-pto-probe-without-ping: a spec-driven client whose 1-RTT PTO fires with nothing to
   -- retransmit closes the connection with "couldn't pack 1-RTT probe packet" (uPacketPacker ignores addPingIfEmpty)
-  let ptoBug := cl == "chrome" && ((impl.splitOn "couldn't_pack_1-RTT_probe_packet").length > 1)
+  let ptoBug := (cl == "chrome" || cl == "firefox") && ((impl.splitOn "couldn't_pack_1-RTT_probe_packet").length > 1)
+  -- (regression corpus/C01/e2estream/0rtt-cwnd-full-initial-lost.ops: a 0-RTT client whose early data filled the congestion
+  -- window and whose ClientHello was partly lost never probed; fixed in /repo 23a90f5)
   let kcls := if ptoBug then "uquic_pto_probe_without_ping" else "-"
   for (dir, o) in (c2s.map fun o => ("c2s", o)) ++ (s2c.map fun o => ("s2c", o)) ++ (p2.map fun o => ("phase2", o)) do
     if !o.pfx || o.got > o.want then
